@@ -113,8 +113,8 @@ def run_shard(binp, job, shard, nshards, tier, seed, outdir, jobidx):
                 "VERIF_SEED": str(seed), "VERIF_KNOWN": KNOWN, "VERIF_REGRESS": os.path.join(HARNESS, "regress"),
                 "VERIF_REPO_DIR": repo_dir()})
     env.update(job.get("env", {}))
-    if job.get("gomaxprocs"):
-        env["GOMAXPROCS"] = str(job["gomaxprocs"][shard % len(job["gomaxprocs"])])
+    gmp = job.get("gomaxprocs", [2, 4, 1, 2])  # few Ps: bubbles and stress cases run faster, and schedules vary by shard
+    env["GOMAXPROCS"] = str(gmp[shard % len(gmp)])
     timeout = job.get("timeout", (240, 1500))[0 if tier == "quick" else 1]
     args = [binp, "-test.run", "^" + job["test"] + "$", "-test.timeout", "%ds" % timeout, "-test.count=1"]
     if job.get("kind", "rapid") == "rapid":
